@@ -10,7 +10,9 @@ import (
 	"encoding/json"
 	"fmt"
 	"hash/fnv"
+	"runtime"
 	"strings"
+	"time"
 
 	"verifharness/core"
 	"verifharness/hx"
@@ -19,33 +21,64 @@ import (
 const sec = int64(1_000_000_000)
 
 func c05Run(ctx *core.Ctx, in c05Input, gen func(r *runner) (op, bool)) (c05Input, bool) {
+	if in.Procs == 1 {
+		// one P: goroutines run in the Go scheduler's own deterministic order (a goroutine that
+		// was just made runnable runs before older ones), which starves freshly spawned
+		// goroutines - the way to see work that was moved into a goroutine nobody waits for
+		defer runtime.GOMAXPROCS(runtime.GOMAXPROCS(1))
+	}
 	r := newRunner(in.T0)
-	if gen == nil {
-		for _, o := range in.Ops {
-			r.do(o)
-		}
-	} else {
-		in.Ops = nil
-		for {
-			o, ok := gen(r)
-			if !ok || r.hung != "" || r.spinning {
-				break
+	// The script runs on its own goroutine (some calls into the Cron are made directly on it, so
+	// that no helper goroutine changes the run-queue order); if it stops making progress - a
+	// call that never returns - it is abandoned and judged.
+	done := make(chan struct{})
+	go func() {
+		defer close(done)
+		if gen == nil {
+			for _, o := range in.Ops {
+				r.progress.Store(time.Now().UnixNano())
+				r.do(o)
 			}
-			in.Ops = append(in.Ops, o)
-			r.do(o)
+		} else {
+			in.Ops = nil
+			for {
+				r.progress.Store(time.Now().UnixNano())
+				o, ok := gen(r)
+				if !ok || r.hung != "" || r.spinning {
+					break
+				}
+				in.Ops = append(in.Ops, o)
+				r.do(o)
+			}
+		}
+		r.progress.Store(time.Now().UnixNano())
+		if r.spinning {
+			// the scheduler wakes up over and over without the clock moving: stop it and judge the
+			// first wake-ups (the oracle sees a wake-up that leaves a reached activation pending)
+			r.call("Stop", func() { r.c.Stop() })
+			r.running = false
+			r.collect()
+			if len(r.items) > 400 {
+				r.items, r.kinds = r.items[:400], r.kinds[:400]
+			}
+		}
+		r.finish()
+	}()
+	abandoned := false
+	r.progress.Store(time.Now().UnixNano())
+	for waiting := true; waiting; {
+		select {
+		case <-done:
+			waiting = false
+		case <-time.After(500 * time.Millisecond):
+			if time.Since(time.Unix(0, r.progress.Load())) > 60*time.Second {
+				abandoned, waiting = true, false
+			}
 		}
 	}
-	if r.spinning {
-		// the scheduler wakes up over and over without the clock moving: stop it and judge the
-		// first wake-ups (the oracle sees a wake-up that leaves a reached activation pending)
-		r.call("Stop", func() { r.c.Stop() })
-		r.running = false
-		r.collect()
-		if len(r.items) > 400 {
-			r.items, r.kinds = r.items[:400], r.kinds[:400]
-		}
+	if abandoned {
+		r.hung = "a call into the Cron made by the script never returned"
 	}
-	r.finish()
 	h := fnv.New64a()
 	h.Write([]byte(r.classKey()))
 	c := hx.Case{Kind: "script", Input: hx.MustJSON(in), Facts: map[string]any{},
@@ -55,8 +88,10 @@ func c05Run(ctx *core.Ctx, in c05Input, gen func(r *runner) (op, bool)) (c05Inpu
 			"races": r.raceObs, "early_returns": r.earlyRets, "notes": r.notes},
 		Coq: fmt.Sprintf("CScript %s %s", hx.CoqZ(in.T0), hx.CoqList(r.items)),
 	}
-	if r.hung != "" {
+	if r.hung != "" && !strings.HasPrefix(r.hung, "things that must happen") {
 		c.Direct, c.Note = 2, "liveness / crash: "+r.hung
+	} else if r.hung != "" {
+		c.Note = r.hung
 	} else if r.spinning {
 		c.Note = "scheduler spinning: repeated wake-ups without progress"
 	}
@@ -72,7 +107,7 @@ func c05Run(ctx *core.Ctx, in c05Input, gen func(r *runner) (op, bool)) (c05Inpu
 	ctx.Sink.Count(fmt.Sprintf("script/wakes=%s", bucket(r.nWake)))
 	ctx.Sink.Count(fmt.Sprintf("script/job_starts=%s", bucket(r.nJobs)))
 	ctx.Sink.Add(c)
-	return in, r.hung != "" || r.spinning
+	return in, r.hung != "" || r.spinning || expiries.Load() > r.exp0
 }
 
 func bucket(n int) string {
@@ -113,6 +148,7 @@ type genState struct {
 	blockAll bool
 	// at most one entry per script whose job calls back into its own Cron (so that the order of
 	// such calls is always readable from the scheduler's log)
+	procs      int
 	actPlanned bool
 	actUsed    bool
 	rn         *runner
@@ -362,7 +398,24 @@ func (g *genState) next(rn *runner) (op, bool) {
 			// complete" does not depend on when the racing wake-up's jobs return
 			api = op{Op: "stop"}
 		}
-		if m := r.Intn(10); m < 4 {
+		if m := r.Intn(10); m == 9 || (g.procs == 1 && m >= 6) {
+			// the call follows the tick at once, on the same goroutine, with NO settling in
+			// between: the scheduler is committed to the wake-up, its job goroutines have at
+			// best just been spawned
+			switch q := r.Intn(10); {
+			case q < 5 && !g.actUsed:
+				api = op{Op: "stop"}
+			case q < 6 && !g.actUsed:
+				api = op{Op: "stop2"}
+			case q < 8:
+				api = op{Op: "remove", ID: g.removeID(rn)}
+			case q < 9 && len(rn.tokens) < 8:
+				api = op{Op: "sched", S: g.spec()}
+			default:
+				api = op{Op: "entries"}
+			}
+			return op{Op: "race", To: to, Mode: "nosettle", API: &api}, true
+		} else if m < 4 {
 			// the call is issued in the MIDDLE of the wake-up at `to` (scheduler held inside its
 			// logger call): prefer removing an entry that is due at this very wake-up
 			mode := "parkwake"
@@ -426,7 +479,13 @@ func c05Gen(ctx *core.Ctx) {
 		r := root.Fork()
 		g := &genState{R: r, ctx: ctx, fam: everyFamilies[i%len(everyFamilies)], nOps: r.Range(12, 36),
 			t0: t0s[r.Intn(len(t0s))], blockAll: r.Chance(1, 4), actPlanned: r.Chance(1, 3)}
-		if _, bad := c05Run(ctx, c05Input{T0: g.t0}, g.next); bad {
+		if r.Chance(1, 4) {
+			// a quarter of the scripts run with GOMAXPROCS(1); half of those with every job blocking
+			g.procs = 1
+			g.blockAll = g.blockAll || r.Bool()
+			ctx.Sink.Count("script/GOMAXPROCS=1")
+		}
+		if _, bad := c05Run(ctx, c05Input{T0: g.t0, Procs: g.procs}, g.next); bad {
 			// a script in which something that must happen did not (10 s deadlines) or the
 			// scheduler span: a few of them are verdict enough - do not spend the whole time
 			// budget waiting
